@@ -361,7 +361,32 @@ func genC04(g *Gen, tier string, idx int) *wire.Scenario {
 		"previous-history", "next-history", "previous-history"}
 	n := g.Range(3, 18)
 	for i := 0; i < n; i++ {
-		switch g.N(10) {
+		switch g.N(11) {
+		case 10:
+			// commands that put a message in the hint area below the input, for one redisplay or more:
+			// keyboard macro recording, a numeric argument, re-reading the init file
+			if mode == "vi" {
+				sc.Script = append(sc.Script, tok("\x1b", "vi-movement-mode"), tok("q", "macro-toggle-record"), tok("a", "register"))
+				for j := 0; j < g.N(3); j++ {
+					sc.Script = append(sc.Script, tok(Pick(g, []string{"h", "l", "0", "$"}), "vi-move"))
+				}
+				sc.Script = append(sc.Script, tok("q", "macro-toggle-record"))
+				if g.P(50) {
+					sc.Script = append(sc.Script, tok("@", "macro-run"), tok("a", "register"))
+				}
+				sc.Script = append(sc.Script, tok("i", "vi-insertion-mode"))
+			} else {
+				switch g.N(4) {
+				case 0:
+					sc.Script = append(sc.Script, tok("\x18(", "start-kbd-macro"), tok("a", "self-insert"), tok("\x18)", "end-kbd-macro"))
+				case 1:
+					sc.Script = append(sc.Script, tok("\x1b3", "digit-argument"), tok("x", "self-insert"))
+				case 2:
+					sc.Script = append(sc.Script, tok("\x18\x12", "re-read-init-file"))
+				default:
+					sc.Script = append(sc.Script, tok("\x18\x12", "re-read-init-file"), tok(g.Cat.ShortSeqFor(km, "backward-char"), "backward-char"))
+				}
+			}
 		case 0, 1, 2:
 			for j := 0; j < g.Range(1, 8); j++ {
 				sc.Script = append(sc.Script, tok(string("abcdefg hij.k"[g.N(13)]), "self-insert"))
